@@ -689,13 +689,23 @@ func (vc *VC) panicReached(fr *Frame, what string) {
 	if vc.pure > 0 {
 		return
 	}
-	// a panic is an obligation "unreachable" unless the contract allows it
-	if fi := vc.fi; fi != nil {
-		if pc, ok := fi.C.Attrs["panics_if"]; ok && pc != "" {
-			_ = pc
+	// a panic is an obligation "unreachable", unless the contract allows it under a
+	// condition on the entry state (panics_if): then the obligation is that condition
+	goal := "false"
+	if fi := vc.fi; fi != nil && len(fi.C.PanicsIf) > 0 {
+		root := vc.curFrame
+		for root != nil && root.parent != nil {
+			root = root.parent
+		}
+		if root != nil && root.isRoot {
+			var alts []string
+			for _, pc := range fi.C.PanicsIf {
+				alts = append(alts, vc.evalClause(pc.GoName, fi.C.Pkg, vc.clauseArgsFrame(root), vc.entry, vc.entry))
+			}
+			goal = or(alts...)
 		}
 	}
-	vc.oblige("unreachable:"+what, []string{"aux"}, "false")
+	vc.oblige("unreachable:"+what, []string{"aux"}, goal)
 	vc.st = vc.st.clone()
 	vc.st.Cond = "false"
 }
@@ -834,8 +844,12 @@ func (vc *VC) sliceOp(fr *Frame, x *ssa.Slice) SV {
 		mx, _ = vc.idx64(fr, x.Max)
 	}
 	vc.oblige("slice:bounds", []string{"aux"}, and("(bvsle (_ bv0 64) "+lo+")", "(bvsle "+lo+" "+hi+")", "(bvsle "+hi+" "+mx+")", "(bvsle "+mx+" "+cp+")"))
+	newOff := vc.def(bvSort(64), "(bvadd "+off+" "+lo+")")
+	if lo != bvLitI(0, 64) {
+		newOff = vc.ix(off, lo)
+	}
 	return SV{L: []string{base,
-		vc.def(bvSort(64), "(bvadd "+off+" "+lo+")"),
+		newOff,
 		vc.def(bvSort(64), "(bvsub "+hi+" "+lo+")"),
 		vc.def(bvSort(64), "(bvsub "+mx+" "+lo+")")}}
 }
@@ -845,6 +859,33 @@ func (vc *VC) binop(fr *Frame, x *ssa.BinOp) SV {
 	ls := vc.eng.layoutOf(x.X.Type()).L
 	op := x.Op
 	// comparisons of composite values
+	if (op == token.EQL || op == token.NEQ) && (a.LV != nil || b.LV != nil) {
+		// pointers with statically known targets (&x.f, &s[i]): compare locations
+		var r string
+		switch {
+		case a.LV != nil && b.LV != nil:
+			if a.LV.Space != b.LV.Space || a.LV.TK != b.LV.TK || a.LV.Leaf != b.LV.Leaf || len(a.LV.Arr) != len(b.LV.Arr) {
+				r = "false"
+			} else {
+				cs := []string{eq(a.LV.Ref, b.LV.Ref)}
+				if a.LV.Space == 'E' {
+					cs = append(cs, eq(a.LV.Idx, b.LV.Idx))
+				}
+				for k := range a.LV.Arr {
+					cs = append(cs, eq(a.LV.Arr[k], b.LV.Arr[k]))
+				}
+				r = and(cs...)
+			}
+		case a.LV != nil:
+			r = and(eq(a.LV.Ref, b.L[0]), boolTerm(a.LV.Leaf == 0 && a.LV.Space == 'O' && len(a.LV.Arr) == 0))
+		default:
+			r = and(eq(b.LV.Ref, a.L[0]), boolTerm(b.LV.Leaf == 0 && b.LV.Space == 'O' && len(b.LV.Arr) == 0))
+		}
+		if op == token.NEQ {
+			r = not(r)
+		}
+		return scalar(vc.def("Bool", r))
+	}
 	if op == token.EQL || op == token.NEQ {
 		var cs []string
 		n := len(a.L)
@@ -1096,7 +1137,9 @@ func (vc *VC) ix(off, i string) string {
 	if !vc.declared["ix"] {
 		vc.declared["ix"] = true
 		vc.decls = append(vc.decls, "(declare-fun ix ((_ BitVec 64) (_ BitVec 64)) (_ BitVec 64))",
-			"(assert (forall ((a (_ BitVec 64)) (b (_ BitVec 64))) (! (= (ix a b) (bvadd a b)) :pattern ((ix a b)))))")
+			"(assert (forall ((a (_ BitVec 64)) (b (_ BitVec 64))) (! (= (ix a b) (bvadd a b)) :pattern ((ix a b)))))",
+			// re-slicing composes offsets: an element of s[lo:] is an element of s
+			"(assert (forall ((a (_ BitVec 64)) (b (_ BitVec 64)) (c (_ BitVec 64))) (! (= (ix (ix a b) c) (ix a (bvadd b c))) :pattern ((ix (ix a b) c)))))")
 	}
 	return "(ix " + off + " " + i + ")"
 }
@@ -1170,4 +1213,11 @@ func (vc *VC) checkAnchors(fr *Frame, b *ssa.BasicBlock, call *ssa.Call) {
 		}
 		vc.oblige("assert"+tag+":"+clauseLabel(a.C, 0), a.C.Tags, g)
 	}
+}
+
+func boolTerm(b bool) string {
+	if b {
+		return "true"
+	}
+	return "false"
 }
